@@ -294,7 +294,24 @@ def mirrors(run, p):
         # message texts differ legitimately
         def scrub(ts):
             return ['STR' if (t[:1] in '"\'' and ' ' in t) else t for t in ts]
-        ok = scrub(fl) == scrub(tb)
+        # local variables may be named freely on either side (m / M, lowest / highest): number them by first occurrence
+        from .c10 import stored_names
+        local = set()
+        for f_ in (fa, fb):
+            for st in p.own_nodes(f_):
+                local |= set(stored_names(st))
+            local -= set(f_.params)
+        local |= {mirror.swap_ident(x, MINMAX) for x in local}
+
+        def alpha(ts):
+            seen, out_ = {}, []
+            for i, t in enumerate(ts):
+                if t in local and not (i and ts[i - 1] == '.'):
+                    out_.append(seen.setdefault(t, 'L%d' % len(seen)))
+                else:
+                    out_.append(t)
+            return out_
+        ok = scrub(fl) == scrub(tb) or alpha(scrub(fl)) == alpha(scrub(tb))
         diff = []
         if not ok:
             import difflib
